@@ -241,6 +241,22 @@ fn run_cfg(src: &str, args: &[Value], cfg: usize, limit_ms: u64) -> Outcome {
     }
 }
 
+/// a rank-1 character array that reads like an error message: "<line>:<col>: text"
+fn is_error_text(v: &Value) -> bool {
+    let Value::Char(a) = v else { return false };
+    if a.rank() != 1 {
+        return false;
+    }
+    let t: String = a.elements().take(12).collect();
+    let mut it = t.splitn(3, ':');
+    match (it.next(), it.next(), it.next()) {
+        (Some(l), Some(c), Some(rest)) => {
+            !l.is_empty() && !c.is_empty() && l.chars().all(|ch| ch.is_ascii_digit()) && c.chars().all(|ch| ch.is_ascii_digit()) && rest.starts_with(' ')
+        }
+        _ => false,
+    }
+}
+
 fn kind(v: &Value) -> &'static str {
     match v {
         Value::Num(_) | Value::Byte(_) => "number",
@@ -257,6 +273,9 @@ fn diff(a: &Outcome, b: &Outcome) -> Option<String> {
         return Some(format!("stack height {} vs {}", a.stack.len(), b.stack.len()));
     }
     for (i, (x, y)) in a.stack.iter().zip(&b.stack).enumerate() {
+        if is_error_text(x) && is_error_text(y) {
+            continue;
+        }
         if x.shape != y.shape {
             return Some(format!("shape of value {i}: {:?} vs {:?}", x.shape, y.shape));
         }
@@ -264,6 +283,12 @@ fn diff(a: &Outcome, b: &Outcome) -> Option<String> {
             return Some(format!("type of value {i}: {} vs {}", kind(x), kind(y)));
         }
         if x != y {
+            // an error caught by `try` and pushed as a value: its text starts with the span of the
+            // failing primitive ("line:col: "), which legitimately differs between a fused primitive
+            // and the sequence it replaces, as may the wording; two caught errors count as equal
+            if is_error_text(x) && is_error_text(y) {
+                continue;
+            }
             return Some(format!("value {i} differs"));
         }
     }
@@ -812,10 +837,20 @@ fn main() {
                 ("len-where", "⧻⊚ [1 ¯1]", false),
                 // repaired by 9703aa4 (sortedness mark of a scalar divided by an array)
                 ("pow-neg1", "⍆ⁿ¯1 [5 ¯2]", false),
-                // still open
+                // repaired by d523098 (TransposeN under rows), 4c07839 (fused reduce of a table without rows)
                 ("transpose3", "≡(⍉⍉⍉) ↯2_3_2⇡12", false),
                 ("reduce-table", "/↥⊞- [] ↯2_2_2⇡8", true),
                 ("reduce-table", "/↥⊞-ℂ0 [] [¯1 5]", true),
+                ("reduce-table", "/+⊞× ↘1\"\" 4", true),
+                // still open
+                ("reduce-table", "/↥⊞- [3 4] ↯0_0 0", true),
+                ("reduce-content", "/◇⊂ ↯0 □0", true),
+                ("reverse-first", "≡(⊢⇌▽2) \"\"", true),
+                ("complex-i", "+×i \"\" □\"A\"", true),
+                ("by-to-dup", "≡(⊸+ 1) \"\"", true),
+                ("last-sort", "≡(⊣⍆) ↯0 □0", true),
+                ("memberof-range", "∊⇡ 3 map [1 2] [3 4]", false),
+                ("memberof-range-rerank", "∊☇1⇡ [4] \"ab\"", false),
                 ("conjoin-inventory", "/◇⊂⍚(⊂0) []", true),
                 ("conjoin-inventory", "/◇⊂⍚⇌¤ @a", false),
                 ("reduce-content", "≡(¤/◇⊂) []", true),
@@ -857,7 +892,7 @@ fn main() {
                                 jstr(rule), jstr(cname), jstr(&d), jstr(src), jstr(&shown_args.join(" | ")), jstr(&show_stack(&a)), jstr(&show_stack(&b)),
                                 jstr(&args.iter().map(coq_value).collect::<Vec<_>>().join(" ")));
                         }
-                    } else if b.ok && !a.err.contains("imeout") && !a.err.contains("too large") && !a.err.contains("emory") && !a.err.starts_with("compile") {
+                    } else if b.ok && !a.err.contains("imeout") && !a.err.contains("too large") && !a.err.contains("is too high") && !a.err.contains("emory") && !a.err.starts_with("compile") {
                         // not a violation of the law (the reference run fails); recorded
                         conv += 1;
                         let empty = has_empty(args) || lits.iter().any(|l| l.contains("[]") || l.contains("\"\"") || l.contains("{}") || l.contains("↯0") || l.contains("_0") || l.contains("⇡0"));
